@@ -9,9 +9,8 @@ concrete CPU (vf.machine) from every initial stack pointer; at the marker the
 machine havocs everything the patch declared.  The oracle is the property
 statement, evaluated on the machine's final state and its memory log.
 """
-import itertools
+import collections
 
-import gtirb_rewriting
 from gtirb_rewriting import Constraints, Patch
 
 from .. import machine as mach
@@ -74,12 +73,6 @@ def D(kind, **kw):
 
 
 # --------------------------------------------------------------------------- enumeration
-def _subsets(regs):
-    for k in range(len(regs) + 1):
-        for c in itertools.combinations(regs, k):
-            yield list(c)
-
-
 def _reads_options(A):
     a, b = A["reads_pair"]
     return [[], [a], [b], [a, b]] + [[x] for x in A["reads_overlap"] + A["reads_never"]]
@@ -339,7 +332,7 @@ def _merge(all_diffs):
 def _evaluate(cfg, gen, res=None):
     """All starts for one generated configuration. gen is a tuple or an exception."""
     A = ABIS[cfg["abi"]]
-    obs = res.extra if res is not None else __import__("collections").Counter()
+    obs = res.extra if res is not None else collections.Counter()
     starts = _starts(A)
     if isinstance(gen, Exception):
         d = _classify_exception(cfg, gen)
